@@ -9,6 +9,7 @@ From MM Require Import lib.ListSet lib.Values model.Heap model.Elig model.Search
   gen.Gen_Search proofs.GroupSpecs proofs.SearchBridge proofs.ExhaustiveProofs proofs.GreedyProofs proofs.TotalityProofs
   proofs.GreedyTermination.
 Import ListNotations.
+From MM Require Import gen.Gen_HeapDict gen.Gen_Exhaustive proofs.ExhaustiveBridge.
 
 Theorem C09_within_constraints_never_divides_by_zero :
   forall (V : Type) (O : vops V) A (par : spar V) shareS T C,
@@ -81,3 +82,17 @@ Print Assumptions C09_control_generator_called_in_domain.
 Print Assumptions C09_exhaustive_empty_when_infeasible.
 Print Assumptions C09_exhaustive_no_admissible_size.
 Print Assumptions C09_greedy_empty_when_infeasible.
+
+(* stated on the Gallina regenerated on this run from exhaustive_search itself (gen/Gen_Exhaustive.v) *)
+Theorem C09_translated_exhaustive_search_empty_when_infeasible :
+  forall (V K : Type) (O : vops V) (ltk : K -> K -> bool) (es : list elig) (par : spar V)
+         (shareS optB : set -> V) (bud : set -> set -> V) (score0 : set -> set -> K) (replace_inv : K -> V -> K),
+    (forall d, passed O es par shareS bud d -> False) -> (dd_get (gen_exhaustive_search O ltk (assignments_of es) par shareS optB bud score0 replace_inv) 0%Z) = [].
+Proof. intros. apply gen_exhaustive_nil, exhaustive_empty_when_infeasible; assumption. Qed.
+Theorem C09_translated_exhaustive_search_no_admissible_size :
+  forall (V K : Type) (O : vops V) (ltk : K -> K -> bool) (es : list elig) (par : spar V)
+         (shareS optB : set -> V) (bud : set -> set -> V) (score0 : set -> set -> K) (replace_inv : K -> V -> K),
+    tsize_range (assignments_of es) par = [] -> (dd_get (gen_exhaustive_search O ltk (assignments_of es) par shareS optB bud score0 replace_inv) 0%Z) = [].
+Proof. intros. apply gen_exhaustive_nil, exhaustive_no_sizes; assumption. Qed.
+Print Assumptions C09_translated_exhaustive_search_empty_when_infeasible.
+Print Assumptions C09_translated_exhaustive_search_no_admissible_size.
